@@ -133,6 +133,40 @@ def run(ctx):
     ctx.ob(rule, fi, ok, "build_file opens the file for binary writing and delegates to build_stream(obj, f, **kw)", key="build_file")
     ctx.floor(rule, 4)
 
+    # R5: start-offset independence -- no amount read, written or skipped depends on the absolute position of the stream
+    # (positions may be told, restored and reported; what is consumed or emitted is a function of position *differences* only)
+    from ..pos import Trace, P0, END
+    n5 = 0
+    verdict = {}
+    for fi, cls in protocol_functions(M, ("_parse", "_build")):
+        for p in paths_of(ctx, fi, cls):
+            t = Trace(p, STREAM)
+            p0 = P0(STREAM)
+            for e in p.events:
+                if e.depth or e.a.get("stream") != STREAM:
+                    continue
+                if e.kind == "READ":
+                    terms = [("read length", e["length"])]
+                elif e.kind == "WRITE":
+                    terms = [("written data", e["data"]), ("write length", e["length"])]
+                elif e.kind == "SEEK" and e["whence"] != N.const(0):
+                    terms = [("relative seek", e["offset"])]
+                else:
+                    continue
+                for what, x in terms:
+                    if x is None:
+                        continue
+                    v = t.val(x)
+                    bad = N.contains(v, p0)
+                    k = (fi.qual, what, id(e.node))
+                    cur = verdict.get(k, (True, fi, e, v))
+                    verdict[k] = (cur[0] and not bad, fi, e, v if bad else cur[3])
+    for (q, what, _), (ok, fi, e, v) in verdict.items():
+        n5 += 1
+        ctx.ob("C17.R5", fi, ok, "%s of %s does not depend on the absolute stream position (so parse_stream/build_stream at any starting offset behave like parse/build on a fresh stream)%s" % (what, q, "" if ok else ": " + N.show(v)[:120]),
+               key=what, node=e.node)
+    ctx.floor("C17.R5", 50)
+
     # positive control
     from ..core import Ctx
     ctl = control_model(
